@@ -77,6 +77,13 @@ func c10Derive(ns *namedSet, op1 string, a uint, op2 string, b uint) *fw.Finding
 	skip := map[rune]bool{}
 	apply := func(s *url.PercentEncodeSet, op string, x uint, w func(rune) bool) (*url.PercentEncodeSet, func(rune) bool) {
 		switch op {
+		case "setv": // ONE variadic call Set(a, b): both become members, nothing else changes
+			delete(skip, rune(a))
+			delete(skip, rune(b))
+			return s.Set(a, b), func(r rune) bool { return w(r) || r == rune(a) || r == rune(b) }
+		case "clearv": // ONE variadic call Clear(a, b)
+			skip[rune(a)], skip[rune(b)] = true, true
+			return s.Clear(a, b), w
 		case "set":
 			delete(skip, rune(x))
 			return s.Set(x), func(r rune) bool { return w(r) || r == rune(x) }
@@ -87,6 +94,9 @@ func c10Derive(ns *namedSet, op1 string, a uint, op2 string, b uint) *fw.Finding
 		return s, w
 	}
 	subject := fmt.Sprintf("%s.%s(0x%02X).%s(0x%02X)", ns.Name, op1, a, op2, b)
+	if op1 == "setv" || op1 == "clearv" {
+		subject = fmt.Sprintf("%s.%s(0x%02X, 0x%02X)", ns.Name, strings.TrimSuffix(op1, "v"), a, b)
+	}
 	var d1, d2 *url.PercentEncodeSet
 	var w2 func(rune) bool
 	midChanged := false
@@ -276,6 +286,8 @@ func init() {
 						chk("clear", a, "set", b)
 						chk("set", a, "set", b)
 						chk("clear", a, "clear", b)
+						chk("setv", a, "", b)
+						chk("clearv", a, "", b)
 					}
 				}
 			}
